@@ -38,6 +38,9 @@ HasQ(k, x) == [op |-> "U32Has", k |-> k, x |-> x]
 ShiftExpQ(n) == [op |-> "ShiftExpired", n |-> n]
 ByExpQ(ord) == [op |-> "GetByIndex", idx |-> "exp", ord |-> ord]
 ReloadQ(how) == [op |-> "CloseReload", how |-> how]
+PatchMetaQ(k, ea, clear, ub) == [op |-> "PatchMeta", k |-> k, ea |-> ea, create |-> clear, x |-> ub]
+PatchExpQ(n, ea, clear, ub) == [op |-> "PatchExpired", n |-> n, ea |-> ea, create |-> clear, x |-> ub]
+FilterQ(fop, ea) == [op |-> "FilterExp", fop |-> fop, ea |-> ea]
 
 Probes == {Plain("GetAll"), Plain("Count"), Plain("IsSwampExist")}
 
@@ -92,21 +95,30 @@ AReload ==
   \cup {Upsert(<<ItM("k2", "str", 0, 1, 1, 12)>>), Upsert(<<ItM("k2", "i64", 7, 2, 2, 3)>>),
         IncQ("i8", "k1", 1, NoCond, Mt(TRUE, 1, FALSE, 0, 12), NoMeta), IncQ("i8", "k1", -1, NoCond, NoMeta, NoMeta),
         IncQ("i8", "k1", 1, Cnd("gt", 50), NoMeta, Mt(FALSE, 0, TRUE, 2, 13)),
-        DelQ(<<Pr("k1", <<4>>)>>), KeysQ("Delete", <<"k2">>),
+        DelQ(<<Pr("k1", <<4>>)>>), KeysQ("Delete", <<"k2">>), KeysQ("Delete", <<"k1">>),
         ReloadQ("idle"), KeysQ("Get", <<"k1", "k2">>), Plain("GetAll"), ByExpQ("asc")}
 
 \* C30: set / slide / clear expiry (past, future, pre-epoch through increment metadata), every expiry-aware read
 AExpiry ==
-  {Upsert(<<ItM("k1", "str", 1, 0, 0, 2)>>), Upsert(<<ItM("k2", "str", 2, 0, 0, 3)>>), Upsert(<<ItM("k1", "str", 1, 0, 0, 12)>>),
-   Upsert(<<ItM("k3", "i8", 1, 0, 0, 1)>>), Upsert(<<It("k2", "str", 2)>>), Upsert(<<It("k4", "i8", 0)>>),
+  {Upsert(<<ItM("k1", "bytes", 5, 0, 0, 2)>>), Upsert(<<ItM("k2", "bytes", 5, 0, 0, 3)>>), Upsert(<<ItM("k1", "bytes", 5, 0, 0, 12)>>),
+   Upsert(<<ItM("k3", "i8", 1, 0, 0, 1)>>), Upsert(<<It("k2", "bytes", 5)>>), Upsert(<<It("k4", "bytes", 5)>>),
+   Upsert(<<ItM("k3", "i8", 1, 0, 0, -2)>>),
    IncQ("i8", "k3", 1, NoCond, Mt(FALSE, 0, FALSE, 0, 1), Mt(FALSE, 0, FALSE, 0, 13)),
-   IncQ("i8", "k4", 1, NoCond, Mt(FALSE, 0, FALSE, 0, -1), Mt(FALSE, 0, FALSE, 0, -1)),
    IncQ("i8", "k3", 1, Cnd("gt", 50), NoMeta, Mt(FALSE, 0, FALSE, 0, 2)),
-   ShiftExpQ(0), ShiftExpQ(1), ByExpQ("asc"), ByExpQ("desc"), KeysQ("Get", <<"k1", "k2", "k3", "k4">>), ReloadQ("idle")}
+   PatchMetaQ("k1", 13, FALSE, 0), PatchMetaQ("k2", 1, FALSE, 2), PatchMetaQ("k1", 0, TRUE, 0), PatchMetaQ("k4", -1, FALSE, 0),
+   PatchMetaQ("k3", 2, FALSE, 0),
+   PatchExpQ(0, 14, FALSE, 1), PatchExpQ(1, 0, TRUE, 0), PatchExpQ(0, 4, FALSE, 0),
+   ShiftExpQ(0), ShiftExpQ(1), ByExpQ("asc"), ByExpQ("desc"), KeysQ("Get", <<"k1", "k2", "k3", "k4">>),
+   FilterQ("lt", 10), FilterQ("ge", 10), FilterQ("empty", 10), FilterQ("notempty", 10), FilterQ("le", 2),
+   ReloadQ("idle")}
   \cup Probes
 
+\* C05: delete / re-create / delete of a filed key between two flushes
+AResurrect == {Upsert(<<It("k1", "str", 1)>>), Upsert(<<ItM("k2", "i64", 7, 2, 2, 3)>>), KeysQ("Delete", <<"k1">>),
+               ReloadQ("idle"), KeysQ("Get", <<"k1", "k2">>)}
+
 Alphabet(f) ==
-  CASE f = "set" -> ASet [] f = "del" -> ADel [] f = "inc" -> AInc [] f = "u32" -> AU32
+  CASE f = "resurrect" -> AResurrect [] f = "set" -> ASet [] f = "del" -> ADel [] f = "inc" -> AInc [] f = "u32" -> AU32
     [] f = "mixed" -> AMixed [] f = "reload" -> AReload [] f = "expiry" -> AExpiry
 
 \* small cores of the alphabets: ALL histories of length 4 over them are replayed on the real Gateway
@@ -130,10 +142,10 @@ Core(f) ==
 Next == (\E q \in Alphabet(fam) : Call(q)) /\ UNCHANGED fam
 Spec == (Init /\ fam \in (IF Family = "c06" THEN {"set", "del", "inc", "u32", "mixed"} ELSE {Family})) /\ [][Next]_<<vars, fam>>
 Bounded == ops <= MaxOps
-mcview == <<store, pend, open, disk, wq, mode, ops, last.ret, fam>>
+mcview == <<store, pend, open, disk, wq, dq, filed, xb, xk, mode, ops, last.ret, fam>>
 
 \* export of the alphabets for the conformance driver (evaluated by the Gen config)
-Families == {"set", "del", "inc", "u32", "mixed", "reload", "expiry"}
+Families == {"set", "del", "inc", "u32", "mixed", "reload", "expiry", "resurrect"}
 ExportAlphabets(dummy) == \A f \in Families : PrintT(ToJson([family |-> f, reqs |-> Alphabet(f), core |-> Core(f)]))
 
 -----------------------------------------------------------------------------
@@ -146,8 +158,11 @@ Normalized == \A k \in DOMAIN store : Normal(store[k].c)
 ExistsIffNonEmpty == open = ~IsEmpty(store)                 \* "a valid Swamp will always contain at least 1 Treasure"
 NoPending == IsEmpty(pend)
 NoStaleFlags == \A k \in DOMAIN store : ~store[k].dirty
+\* C30: the expiration index always is the current view of the records
+IndexFresh == Idx(State) = CurIdx(store)
 \* C05: whatever is in memory is, or is queued to be, in the file
-DiskFaithful == mode # "mem" => \A k \in DOMAIN store : k \in wq \/ (Has(disk, k) /\ disk[k] = Clean(store[k]))
+DiskFaithful == mode # "mem" => /\ \A k \in DOMAIN store : k \in wq \/ (Has(disk, k) /\ disk[k] = Clean(store[k]))
+                                /\ \A k \in DOMAIN disk : Has(store, k) \/ k \in dq
 
 -----------------------------------------------------------------------------
 (* properties of every call (action formulas: they are evaluated on every transition) *)
@@ -199,8 +214,8 @@ GoodIncrement ==
        /\ Has(A, Q.k) /\ A[Q.k].c = CScalar(Q.t, R.val)
        /\ R.val = (IF Has(B, Q.k) /\ B[Q.k].c.t = Q.t THEN B[Q.k].c.v ELSE 0) + Q.by]_vars
 
-ReadOps == {"Get", "GetAll", "GetByKeys", "Count", "IsSwampExist", "IsKeyExist", "AreKeysExist", "U32Size", "U32Has", "GetByIndex"}
-ReadsArePure == [][Q.op \in ReadOps => (store' = store /\ pend' = pend /\ open' = open /\ disk' = disk /\ wq' = wq)]_vars
+ReadOps == {"Get", "GetAll", "GetByKeys", "Count", "IsSwampExist", "IsKeyExist", "AreKeysExist", "U32Size", "U32Has", "GetByIndex", "FilterExp"}
+ReadsArePure == [][Q.op \in ReadOps => (store' = store /\ pend' = pend /\ open' = open /\ disk' = disk /\ wq' = wq /\ dq' = dq /\ filed' = filed /\ xb' = xb /\ xk' = xk)]_vars
 
 ErrorsNoEffect == [][(last'.ret /\ R.err # "" /\ Q.op \notin {"U32Push", "U32Delete"}) => Data(A) = Data(B)]_vars
 
@@ -229,6 +244,27 @@ ShiftExpiredSound ==
 \* every read shows the stored expiry
 ExpiryVisible ==
   [][(Q.op = "Get" /\ Ok) => \A i \in DOMAIN R.tr : R.tr[i].x => R.tr[i].ea = B[R.tr[i].k].ea]_vars
+
+\* every expiry-aware path agrees with Expired(): the claim takes exactly expired records, oldest first
+PatchExpiredSound ==
+  [][(Q.op = "PatchExpired" /\ Ok) =>
+       /\ \A i \in DOMAIN R.pt : Has(B, R.pt[i].k) /\ Expired(B[R.pt[i].k], NOW)
+       /\ \A i, j \in DOMAIN R.pt : i < j => B[R.pt[i].k].ea <= B[R.pt[j].k].ea
+       /\ (Q.n = 0) => \A k \in DOMAIN B : Expired(B[k], NOW) => \E i \in DOMAIN R.pt : R.pt[i].k = k
+       /\ \A k \in DOMAIN B : (~Expired(B[k], NOW)) => (Has(A, k) /\ SameData(A[k], B[k]))
+       /\ DOMAIN A = DOMAIN B]_vars
+\* the expiry filter and the expiry index see exactly the stored expiry
+FilterAgrees ==
+  [][(Q.op = "FilterExp" /\ Ok /\ Q.fop = "lt" /\ Q.ea = NOW) =>
+       {R.tr[i].k : i \in DOMAIN R.tr} = {k \in DOMAIN B : Expired(B[k], NOW)}]_vars
+IndexAgrees ==
+  [][(Q.op = "GetByIndex" /\ Ok) =>
+       /\ {R.tr[i].k : i \in DOMAIN R.tr} = {k \in DOMAIN B : B[k].ea # 0}
+       /\ \A i \in DOMAIN R.tr : R.tr[i].ea = B[R.tr[i].k].ea]_vars
+\* clearing the expiry through a patch makes the record never expire; sliding it moves it
+PatchMetaEffect ==
+  [][(Q.op = "PatchMeta" /\ Ok /\ R.st = <<"PATCHED">>) =>
+       A[Q.k].ea = (IF Q.create THEN 0 ELSE IF Q.ea # 0 THEN Q.ea ELSE B[Q.k].ea)]_vars
 
 \* the deviation bookkeeping is sound: an outcome the strict model does not allow always names a deviation
 DvSound ==
